@@ -412,7 +412,14 @@ def run(facts, rep, ctx):
                             keep = E.call_closure(clo, [Ref(k), Ref(v)])
                             got = (x if kind != "key+value" else (x, y)) if keep else None
                             if kind == "value-elems":
-                                raise Unknown("retain over buckets")
+                                # `retain` keeps or drops a whole bucket; unless the predicate edits the bucket itself
+                                # (not modelled), a kept bucket keeps every cell it had
+                                cb_ = facts.bodies.get(getattr(deref(clo), "body_id", None))
+                                edits = cb_ is None or any((callee_names(t_)[1] or "").rsplit("::", 1)[-1] in ("retain", "drain", "remove", "truncate", "clear", "dedup", "swap_remove", "retain_mut")
+                                                           for _, t_ in cb_.calls())
+                                if edits:
+                                    raise Unknown("retain over buckets whose predicate edits the bucket")
+                                got = x if keep else None
                         else:
                             break
                     except Unknown as u:
